@@ -27,23 +27,23 @@ Definition KEY256 : Z := 32.
 Definition KEY512 : Z := 64.
 
 (* ---- the record loop shared by both message parsers ---- *)
-Inductive step_result (S : Type) :=
-| Continue (s : S)
+Inductive step_result (St : Type) :=
+| Continue (s : St)
 | Break
 | Stop (e : Z).
-Arguments Continue {S} s.
-Arguments Break {S}.
-Arguments Stop {S} e.
+Arguments Continue {St} s.
+Arguments Break {St}.
+Arguments Stop {St} e.
 
 (* `loop { let record = NtsRecord::parse(&mut reader).await?; match record {..} }`
    The fuel is a model artefact (every record takes at least four bytes);
    running out of it is reported as a panic so that the totality theorem
    excludes it. *)
-Fixpoint msg_loop {S} (step : S -> record -> step_result S) (fuel : nat) (st : S)
-  (inp : list Z) : res S * list Z :=
+Fixpoint msg_loop {St} (step : St -> record -> step_result St) (fuel : nat) (st : St)
+  (inp : list Z) : res St * list Z :=
   match fuel with
   | O => (Panic panic_fuel, inp)
-  | Datatypes.S f =>
+  | S f =>
     match parse_record inp with
     | (Ok r, rest) =>
       match step st r with
